@@ -132,8 +132,10 @@ def main():
             wall_s=round(time.time() - ctx.t0, 2),
             violations=len(seen) + (len(broken) if exit_code and not seen else 0),
         )
-        os.makedirs(os.path.join(VERIF, "evidence"), exist_ok=True)
-        with open(os.path.join(VERIF, "evidence", f"{pid}.json"), "w") as f:
+        # runs against a scratch tree (VERIF_REPO, used by tools/seeded.py) must not overwrite the evidence of /repo
+        evdir = os.path.join(VERIF, "evidence") if core.REPO == "/repo" else os.path.join(VERIF, "work", "evidence_scratch")
+        os.makedirs(evdir, exist_ok=True)
+        with open(os.path.join(evdir, f"{pid}.json"), "w") as f:
             json.dump(core.jsonable(ev) if False else ev, f, indent=1, default=str)
         print(f"{pid} {tier}: obligations {ndis}/{nobl}, correspondence cases {ctx.evaluations} "
               f"({len(ctx.nontrivial)} distinct non-trivial), violations {ev['violations']}, {ev['wall_s']} s")
